@@ -135,4 +135,7 @@ def check(ctx):
             rep.proved("R-C40-bind", f"{QS}:{f.qualname}", "does not write to self or to the operators it owns")
         for s in res.sinks:
             rep.refuted("R-C40-bind", QS, f.qualname, s.node, f"QuantumScript.{name} {s.why}", line=s.line)
+    from .c40_extra import extra
+
+    extra(ctx, rep)
     return rep
